@@ -293,6 +293,7 @@ func removeKind(sp Spec, i int) Spec {
 // when the same difference persists (simplest first).
 var simplestVariants = map[string][]string{
 	"deprecate": {"noreason", "plain"},
+	"depmix":    {"dd"},
 	"describe":  {"plain"},
 	"wrap":      {"T!", "[T]"},
 	"addarg":    {"int", "int_1"},
@@ -531,7 +532,7 @@ func TestCheck(t *testing.T) {
 	maxSingleEng := vk.Pick(run, 2, 3)  // clause 3, <= 1 decoration
 	maxPair := vk.Pick(run, -1, 2)      // clauses 1+2, 2 decorations
 	maxPairEng := vk.Pick(run, -1, 1)   // clause 3, 2 decorations
-	run.Rule("every multiset of <= N user types over {object, enum, interface, input object, custom scalar, union, interface-implementing-interface} wired to a Query root by fixed rules (base family, in full), each with 0 and with every single decoration of the menu at every applicable site; thorough: additionally every unordered pair of decorations from the core sub-menu (all operations and sites; of the purely textual variant families - deprecation reasons, descriptions, wrappers, argument variants, directive variants - the representatives listed in coreVariants), the second enumerated on the schema produced by the first, so it may sit on a site the first created. N per clause group and decoration count is in bounds (clauses 1+2 are cheap, clause 3 costs 6 planned operations per schema). Decorations: 10 list/non-null wrappers (depth <= 3) and every named type at every field / argument / input field; 32 argument / input field / directive argument variants with default values of every kind (int, float, string with escapes, block strings, boolean, null, enum, lists, nested lists, input objects, lists of input objects, custom scalar literals); 7 @deprecated forms on fields, arguments, input fields, enum values, directive arguments; 5 description forms at every describable site incl. the schema; 30 directive definitions (every location, repeatable, arguments, applied uses); 8 root-operation layouts; extend (member / implements); unimplement; drop member; @specifiedBy; definition order. A distinct outcome is a distinct introspection document produced by the generator.")
+	run.Rule("every multiset of <= N user types over {object, enum, interface, input object, custom scalar, union, interface-implementing-interface} wired to a Query root by fixed rules (base family, in full), each with 0 and with every single decoration of the menu at every applicable site; thorough: additionally every unordered pair of decorations from the core sub-menu (all operations and sites; of the purely textual variant families - deprecation reasons, descriptions, wrappers, argument variants, directive variants - the representatives listed in coreVariants), the second enumerated on the schema produced by the first, so it may sit on a site the first created. N per clause group and decoration count is in bounds (clauses 1+2 are cheap, clause 3 costs 6 planned operations per schema). Decorations: 10 list/non-null wrappers (depth <= 3) and every named type at every field / argument / input field; 32 argument / input field / directive argument variants with default values of every kind (int, float, string with escapes, block strings, boolean, null, enum, lists, nested lists, input objects, lists of input objects, custom scalar literals); 7 @deprecated forms on fields, arguments, input fields, enum values, directive arguments; several deprecated siblings with pairwise different reasons in ONE container as a single decoration (enum values: every d/n pattern of length <= 4 with 2-3 deprecated values, i.e. every position among non-deprecated ones; own fields of a type, arguments of a field, input fields, directive arguments: every pattern of length <= 3 with >= 2 deprecated; reasons r1, the default reason, r3), judged per element like every deprecation; 5 description forms at every describable site incl. the schema; 30 directive definitions (every location, repeatable, arguments, applied uses); 8 root-operation layouts; extend (member / implements); unimplement; drop member; @specifiedBy; definition order. A distinct outcome is a distinct introspection document produced by the generator.")
 	run.Assume(
 		"github.com/vektah/gqlparser/v2 v2.5.30 (parser, schema validator, prelude) reads the SDL correctly; the reference introspection is computed from its ast.Schema by this check, not by repository code",
 		"schemas containing `extend` are passed through the repository's own Schema.Normalize() before the engine / generator see them (the engine does not understand un-normalized extensions anywhere, e.g. operation validation rejects fields defined in an extension); the un-normalized form is not judged",
@@ -549,6 +550,8 @@ func TestCheck(t *testing.T) {
 	run.Bound("wrapper_forms", len(wrapMenu))
 	run.Bound("argument_variants", len(argMenu))
 	run.Bound("deprecation_forms", len(deprecateMenu))
+	run.Bound("deprecated_sibling_patterns_enum", depmixEnumPatterns)
+	run.Bound("deprecated_sibling_patterns_other", depmixSiblingPatterns)
 	run.Bound("description_forms", len(describeMenu))
 	run.Bound("directive_definition_variants", len(directiveMenu))
 	run.Bound("root_layouts", len(rootsMenu))
